@@ -72,7 +72,10 @@ Fixpoint bcast_dims (a b : list Z) : res (list Z) :=
   | x :: a', y :: b' => d <- bcast_dim x y ;; t <- bcast_dims a' b' ;; Ok (d :: t)
   end.
 
+(* if (is_result and len(shape1) > len(shape2)) or not all(...): raise ValueError *)
 Definition v_broadcast_shape (isres : bool) (s1 s2 : list Z) : res (list Z) :=
+  more <- sv_bcast_more_dims (VBool isres) (VTuple (map VInt s1)) (VTuple (map VInt s2)) ;;
+  if truthy more then Raise ValueError else
   ok <- bcast_all isres (rev s1) (rev s2) ;;
   if ok then t <- bcast_dims (rev s1) (rev s2) ;; Ok (rev t)
   else Raise ValueError.
